@@ -73,7 +73,10 @@ func genHeader(t *rapid.T) header {
 	var h header
 	h.Level = rapid.SampledFrom(levels).Draw(t, "level")
 	h.Time = genTime(t)
-	switch rapid.IntRange(0, 3).Draw(t, "fileK") {
+	switch rapid.IntRange(0, 4).Draw(t, "fileK") {
+	case 4:
+		// a path with multi-byte characters: the width cut is by bytes, wherever it falls
+		h.File = rapid.SampledFrom([]string{"/home/张三/项目/", "/srv/données/é/", "C:/Users/Jürgen/", "/😀/"}).Draw(t, "fileU") + rapid.StringMatching(`[a-zé日]{0,30}`).Draw(t, "fileU2") + ".go"
 	case 0:
 		h.File = ""
 	case 1:
@@ -91,6 +94,10 @@ func genHeader(t *rapid.T) header {
 	if rapid.Bool().Draw(t, "hasCtx") {
 		// the property promises nothing about control characters inside a context string
 		h.Ctx = rapid.StringMatching(`[ -~]{1,30}`).Draw(t, "ctx")
+		if rapid.IntRange(0, 5).Draw(t, "ctxSep") == 0 {
+			// context strings that contain or end in the layout's own separator
+			h.Ctx = rapid.SampledFrom([]string{"||", "trace_id=1||span_id=2||", "a||", "|", "x||y", "||||"}).Draw(t, "ctxWithSep")
+		}
 	}
 	h.W = genWidth(t)
 	return h
